@@ -6,11 +6,17 @@ import json, os, subprocess, sys, time, shutil, collections, glob
 import shadow
 
 VERIF = os.path.dirname(os.path.dirname(os.path.abspath(__file__)))
-SIM = os.path.join(VERIF, "sim")
-WORK = os.path.join(VERIF, "work")
+# The self-tests run the same driver against a scratch copy of the repository and of the
+# simulator workspace (never /repo or /verif/sim themselves): these variables redirect it.
+REPO = os.environ.get("VERIF_REPO", "/repo")
+SIM = os.environ.get("VERIF_SIM", os.path.join(VERIF, "sim"))
+WORK = os.environ.get("VERIF_WORKDIR", os.path.join(VERIF, "work"))
+EVIDENCE_DIR = os.environ.get("VERIF_EVIDENCE_DIR", os.path.join(VERIF, "evidence"))
+REPLAY_DIR = os.environ.get("VERIF_REPLAY_DIR", os.path.join(VERIF, "replay"))
 SHIM = os.path.join(SIM, "shim", "detrand.so")
-TARGET_B = os.path.join(VERIF, "target", "b")
-TARGET_A = os.path.join(VERIF, "target", "a")
+_TARGET = os.environ.get("VERIF_TARGET", os.path.join(VERIF, "target"))
+TARGET_B = os.path.join(_TARGET, "b")
+TARGET_A = os.path.join(_TARGET, "a")
 BIN_B = os.path.join(TARGET_B, "debug", "sim-b")
 BIN_A = os.path.join(TARGET_A, "debug", "sim-a")
 NPROC = int(os.environ.get("VERIF_WORKERS", os.cpu_count() or 4))
@@ -67,10 +73,10 @@ def build_shim():
 
 
 def cargo_build(pkg, target, rustflags=None):
-    shadow.generate()
+    shadow.generate(REPO, os.path.join(SIM, "qrlew-shadow"))
     lock = os.path.join(SIM, "Cargo.lock")
     if not os.path.exists(lock):
-        shutil.copy("/repo/Cargo.lock", lock)
+        shutil.copy(os.path.join(REPO, "Cargo.lock"), lock)
     extra = {"CARGO_TARGET_DIR": target}
     if rustflags:
         extra["RUSTFLAGS"] = rustflags
@@ -176,7 +182,7 @@ def handle_violations(binary, prop, seed, records, opens, max_minimise=6, payloa
         if isinstance(v, dict) and "Violations" in v:
             for x in v["Violations"]:
                 by_class.setdefault((x["invariant"], x["class"]), []).append((r, x))
-    os.makedirs(os.path.join(VERIF, "replay"), exist_ok=True)
+    os.makedirs(REPLAY_DIR, exist_ok=True)
     violation_lines, known_lines, details = [], [], []
     open_classes = {o.get("class"): o for o in opens if o.get("property") == prop}
     known_seen = collections.Counter()
@@ -187,9 +193,9 @@ def handle_violations(binary, prop, seed, records, opens, max_minimise=6, payloa
             continue
         # an unlisted violation: write replay file, minimise, confirm, report (first of the class)
         r, x = items[0]
-        raw = os.path.join(VERIF, "replay", "%s-%d-%d.raw.json" % (prop, seed, r["run"]))
+        raw = os.path.join(REPLAY_DIR, "%s-%d-%d.raw.json" % (prop, seed, r["run"]))
         json.dump({"property": prop, "invariant": inv, "class": cls, "violation": x, payload: r[payload], "seed": seed, "run": r["run"]}, open(raw, "w"), indent=1)
-        final = os.path.join(VERIF, "replay", "%s-%d-%d.json" % (prop, seed, r["run"]))
+        final = os.path.join(REPLAY_DIR, "%s-%d-%d.json" % (prop, seed, r["run"]))
         env = env_offline({"LD_PRELOAD": SHIM})
         ok_min = False
         if minimised < max_minimise:
@@ -295,8 +301,8 @@ def check_sim_b(prop, tier, seed, level_rule):
         "wall_s": round(wall, 2),
         "violations": unlisted,
     }
-    os.makedirs(os.path.join(VERIF, "evidence"), exist_ok=True)
-    json.dump(evidence, open(os.path.join(VERIF, "evidence", prop + ".json"), "w"), indent=1)
+    os.makedirs(EVIDENCE_DIR, exist_ok=True)
+    json.dump(evidence, open(os.path.join(EVIDENCE_DIR, prop + ".json"), "w"), indent=1)
     log("%s: %d runs, %d compared (%d distinct shapes), skipped %s" % (prop, len(records), ok + n_viol_runs, len(shapes), dict(skips)))
     log("faults fired: %s" % faults)
     for l in klines:
@@ -434,7 +440,8 @@ def check_sim_a(tier, seed):
         "wall_s": round(wall, 2),
         "violations": unlisted,
     }
-    json.dump(evidence, open(os.path.join(VERIF, "evidence", prop + ".json"), "w"), indent=1)
+    os.makedirs(EVIDENCE_DIR, exist_ok=True)
+    json.dump(evidence, open(os.path.join(EVIDENCE_DIR, prop + ".json"), "w"), indent=1)
     log("%s: %d concurrent histories (%d distinct shapes, %d distinct multi-thread interleavings), %d hash-seed replays" % (prop, len(records), len(shapes), len(inter), sweep_compared * len(salts)))
     log("faults fired: %s" % dict(faults))
     log("probes: %s" % dict(probes))
